@@ -1,6 +1,7 @@
 package logql_transpiler_v2
 
 import (
+	"fmt"
 	"github.com/metrico/qryn/reader/logql/logql_transpiler_v2/shared"
 	"time"
 )
@@ -17,6 +18,14 @@ func (m *FixPeriodPlanner) Process(ctx *shared.PlannerContext,
 	in chan []shared.LogEntry) (chan []shared.LogEntry, error) {
 	_from := ctx.From.UnixNano()
 	_to := ctx.To.UnixNano()
+	// The goroutine below divides by the step and sizes a slice by (to-from)/step: reject parameters
+	// that would make it panic (it has no recover, a panic there ends the process).
+	if ctx.Step.Nanoseconds() <= 0 {
+		return nil, fmt.Errorf("step must be positive")
+	}
+	if _to < _from {
+		return nil, fmt.Errorf("end is before start")
+	}
 	ctx.From = ctx.From.Truncate(m.Duration)
 	ctx.To = ctx.To.Truncate(m.Duration).Add(m.Duration)
 
